@@ -80,6 +80,10 @@ pub struct OpM {
     pub holds_slot: bool,
     pub nfilters: usize,
     pub expected_items: Vec<MsgSum>,
+    /// injection sequence number of each expected item
+    pub expected_seq: Vec<usize>,
+    /// after drop(context): how many of the expected items the context had certainly processed
+    pub min_items_after_drop: Option<usize>,
     pub stream: Option<usize>,
     pub stream_dropped: bool,
     pub checked_done: bool,
@@ -153,6 +157,8 @@ pub struct World {
     pub sub_ids_seen: std::collections::HashMap<u32, usize>,
     /// Maximum Packet Size announced in CONNACK (None = unlimited)
     pub max_packet: Option<u32>,
+    /// number of injected inbound PUBLISH packets the context has certainly consumed (reader empty at a serving quiescent point)
+    pub confirmed_inbound: usize,
 }
 
 #[derive(Default, Clone, Debug)]
@@ -264,6 +270,7 @@ impl World {
             undecided: Vec::new(),
             sub_ids_seen: std::collections::HashMap::new(),
             max_packet: cfg.max_packet,
+            confirmed_inbound: 0,
         };
         if w.connack_sum.is_none() {
             w.viol(P_ANY, "boot/connect-failed".into(), format!("connect() did not return ConnectRsp: {:?}", w.sim.last_ctx_result("connect")));
@@ -331,6 +338,8 @@ impl World {
             holds_slot: false,
             nfilters: 1,
             expected_items: Vec::new(),
+            expected_seq: Vec::new(),
+            min_items_after_drop: None,
             stream: None,
             stream_dropped: false,
             checked_done: false,
@@ -622,6 +631,7 @@ impl World {
                 for m in self.m.iter_mut() {
                     if m.kind == Kind::Sub && m.registered && m.sub_id == Some(*s) && !m.after_ctx_drop {
                         m.expected_items.push(item.clone());
+                        m.expected_seq.push(k);
                     }
                 }
             }
@@ -744,6 +754,13 @@ impl World {
                     alts.push(e.clone());
                 }
                 m.either = alts;
+            }
+        }
+        // messages still sitting unread in the transport (context blocked on a stalled writer, or held) were never received
+        let conf = self.confirmed_inbound;
+        for m in self.m.iter_mut() {
+            if m.kind == Kind::Sub {
+                m.min_items_after_drop = Some(m.expected_seq.iter().filter(|&&q| q < conf).count());
             }
         }
         self.sim.drop_ctx();
@@ -1236,6 +1253,9 @@ impl World {
         }
         let serving = self.ctx_serving();
         let writer_stalled = self.sim.writer.0.borrow().stalled;
+        if serving && self.sim.unread() == 0 {
+            self.confirmed_inbound = self.inbound_seq;
+        }
         // a partial packet at quiescence is only legitimate while the script stalls the writer or the transport failed
         if !writer_stalled && self.sim.wire_tail() != 0 && self.sim.ctx_in_call() == Some("run") && !self.sim.hold_ctx && !self.sim.writer.0.borrow().err_signalled {
             let t = self.sim.wire_tail();
@@ -1537,7 +1557,8 @@ impl World {
                 self.m[i].stream_dropped = true;
                 continue;
             }
-            if !held && self.sim.auto_streams && (serving || self.ctx_dropped) && items.len() < exp.len() {
+            let need = if self.ctx_dropped { self.m[i].min_items_after_drop.unwrap_or(exp.len()) } else { exp.len() };
+            if !held && self.sim.auto_streams && (serving || self.ctx_dropped) && items.len() < need {
                 let x = &exp[items.len()];
                 let props: &'static [&'static str] = if self.ctx_dropped { &["C14", "C07"] } else { P_C07 };
                 self.viol(
